@@ -14,7 +14,9 @@ from ..oracles import tabxml
 LEVEL = "exploration"
 RULE = (
     "Documents: the 4 templates, every sample whose tables declare <= 20000 cells (bigger ones are counted as "
-    "skipped_big and only their non-expanding entry points run), decorated packages and generated documents "
+    "skipped_big and only their non-expanding entry points run), decorated packages, variants another producer "
+    "could have written (optional elements of meta / styles / content left out, no settings part, named ranges "
+    "with legal but non-canonical addresses) and generated documents "
     "(tables with trailing empty rows/cells and repeated runs, notes, frames, lists, spans). Read-only entry "
     "points are enumerated at run time: every property and every get_*/is_*/search*/to_*/as_*/show_* method "
     "callable without arguments on Document, Meta, Manifest, Styles/Content parts, the body element, every "
@@ -216,6 +218,19 @@ def explicit_calls(doc, rng, big):
         ("Content", "get_styles", lambda: doc.content.get_styles()),
     ]
     out += tracked_calls(body)
+    if hasattr(body, "get_named_ranges") and not big:
+        out.append(("Body", "get_named_ranges", lambda: body.get_named_ranges()))
+        try:
+            names = [nr.name for nr in body.get_named_ranges()][:6]
+        except Exception:
+            names = []
+        for nm in names:
+            out += [
+                ("Body", "get_named_range", lambda nm=nm: body.get_named_range(nm)),
+                ("NamedRange", "get_values", lambda nm=nm: body.get_named_range(nm).get_values()),
+                ("NamedRange", "get_value", lambda nm=nm: body.get_named_range(nm).get_value()),
+                ("NamedRange", "crange/start/table_name", lambda nm=nm: (lambda r: (r.crange, r.start, r.table_name, r.usage))(body.get_named_range(nm))),
+            ]
     for ti, t in enumerate(body.get_tables()[:4]):
         if big:
             out += [("Table", "size", lambda t=t: t.size), ("Table", "name", lambda t=t: t.name)]
@@ -392,7 +407,15 @@ def run_document(src, ctx, res, rng):
         except Exception:
             pass
     pur = Purity(doc, res, kind, "+".join(sorted(flags)))
+    base = pur.digest()
     calls = introspected_calls(doc, rng, big) + explicit_calls(doc, rng, big)
+    # building the list reads the document too (get_tables, get_paragraphs, get_named_ranges, the first element of each family)
+    res.judge()
+    after = pur.digest()
+    if after != base:
+        changed = sorted(k for k in set(base) | set(after) if base.get(k) != after.get(k))
+        hint = DL.first_diff(base.get(changed[0], b"<x/>"), after.get(changed[0], b"<x/>")) if changed and DL.is_xml_name(changed[0]) else {}
+        pur.violations.append(("document-changed:enumerating-the-elements", {"parts": changed[:4], "hint": hint, "kind": kind}, {"source": src, "owner": "-", "entry": "-"}))
     if big:
         calls = [c for c in calls if not any(u in c[1] for u in BIG_UNSAFE) and c[0] not in ("Body", "Content") or c[1] in ("size", "name")]
     rng.shuffle(calls)
@@ -411,6 +434,10 @@ def run_document(src, ctx, res, rng):
 def gen_sources(ctx):
     srcs = [{"kind": "template", "name": t} for t in DL.TEMPLATES] + [{"kind": "sample", "name": s} for s in DL.sample_files()]
     srcs += [{"kind": "decorated", "base": b} for b in ("text", "simple_table.ods", "note.odt")]
+    vbases = list(DL.TEMPLATES) + [s for s in DL.sample_files() if not DL.is_big(s) and s.rsplit(".", 1)[-1] in ("odt", "ods", "odp", "odg")]
+    rngv = ctx.rng("variants")
+    for i in range(24 if ctx.quick else 300):
+        srcs.append({"kind": "variant", "base": vbases[i % len(vbases)] if i < len(vbases) else rngv.choice(vbases), "seed": i})
     rng = ctx.rng("gen")
     for i in range(12 if ctx.quick else 400):
         spec = DL.gen_doc_spec(rng, kind="text" if i % 2 else "spreadsheet")
@@ -447,7 +474,11 @@ def replay(case):
     doc = DL.open_source(case["source"])
     pur = Purity(doc, res, "replay", "")
     big = case["source"]["kind"] == "sample" and DL.is_big(case["source"]["name"])
-    for owner, name, fn in introspected_calls(doc, random.Random(0), big) + explicit_calls(doc, random.Random(0), big):
+    base = pur.digest()
+    calls = introspected_calls(doc, random.Random(0), big) + explicit_calls(doc, random.Random(0), big)
+    if case["owner"] == "-" and pur.digest() != base:
+        return [{"mechanism": "document-changed:enumerating-the-elements", "detail": {}}]
+    for owner, name, fn in calls:
         if owner == case["owner"] and name == case["entry"]:
             pur.call(owner, name, fn, case)
     return [{"mechanism": m, "detail": d} for m, d, _c in pur.violations]
